@@ -153,9 +153,9 @@ func init() {
 		},
 		Bounds: func(tier string) string {
 			if tier == "thorough" {
-				return "Sort end to end: 1-2 keys of all five types, all Reverse/NullLast combinations, n<=4 rows of P<=5 (general symbolic keys, nulls, index); sorter kernels under an abstract rank order: insertion/heap/shell n<=6 general, n=7 distinct ranks; doPivot n<=10 ternary, n=13,15 binary (range 2..15 of 16 binary), and doPivot n=13,14,16,20 / whole sort n=14,17 on inputs made of four constant runs with symbolic lengths over three ranks (all 81 run-value patterns); whole Sort n=13-16 binary ranks, n=20/41/44 with all ranks tied except 3 symbolic positions (ninther regime)"
+				return "Sort end to end: 1-2 keys of all five types, all Reverse/NullLast combinations, n<=4 rows of P<=5 (general symbolic keys, nulls, index); sorter kernels under an abstract rank order: insertion/heap/shell n<=6 general, n=7 distinct ranks; doPivot n<=10 ternary, n=13,15 binary (range 2..15 of 16 binary), and doPivot n=13,14,16,20 / whole sort n=14,17 on inputs made of four constant runs with symbolic lengths over three ranks (all 81 run-value patterns); whole Sort n=13-16 binary ranks, n=20/41/44 with all ranks tied except 3 symbolic positions (ninther regime); Sort on frames with a history (sorted before, then key replaced by Apply/Copy/Eval, filtered, re-sorted) n=3"
 			}
-			return "Sort end to end: 1-2 keys of all five types, all Reverse/NullLast combinations, n=3 rows of P<=4 (general symbolic keys, nulls, index); sorter kernels under an abstract rank order: insertion/heap/shell n<=5 general ranks, shell pass n=8 binary ranks; doPivot on 14 rows made of four constant runs with symbolic lengths over three ranks (12 run-value patterns)"
+			return "Sort end to end: 1-2 keys of all five types, all Reverse/NullLast combinations, n=3 rows of P<=4 (general symbolic keys, nulls, index); sorter kernels under an abstract rank order: insertion/heap/shell n<=5 general ranks, shell pass n=8 binary ranks; doPivot on 14 rows made of four constant runs with symbolic lengths over three ranks (12 run-value patterns); Sort on frames with a history (sorted before, then key replaced by Apply/Copy/Eval, filtered, re-sorted) n=3"
 		},
 		Assume:   []string{"any strict weak order is a rank function (sorter kernels use symbolic integer ranks)", "restricted-key slices (binary/ternary/few/blocks) are decided completely inside the slice and are slices of the input space, not the whole of it"},
 		Outside:  []string{"general keys for n >= 7 (8) end to end", "doPivot with more than two distinct ranks for n >= 11 (3^n comparison outcomes: n=13 did not finish in 18 min; seeded change C03-4 lives there)", "ninther regime beyond 3 non-tied keys"},
@@ -234,7 +234,7 @@ func init() {
 			if tier == "thorough" {
 				return "n=4 rows (int key) / n=3 (other key types) of P=n+1 physical rows in every arrangement, 1-2 key columns of all five types, both Null settings, 8 aggregations; hash table of 8 slots (no growth step reached end-to-end)"
 			}
-			return "n=3 rows of P=4 physical rows (fixed non-identity arrangement), 1-2 key columns of all five types, both Null settings, 8 aggregations (on a concrete bool key pattern and without key; cell values symbolic); hash table of 8 slots; plus the table itself across its first growth step (7 rows, 5-6 distinct abstract keys, hash = key; thorough: also an uninterpreted hash with start slots {0,1,8,15})"
+			return "n=3 rows of P=4 physical rows (fixed non-identity arrangement), 1-2 key columns of all five types, both Null settings, 8 aggregations (on a concrete bool key pattern and without key; cell values symbolic); hash table of 8 slots; user aggregations returning their first/last argument on a concrete string column; a concrete enum key pattern with three nulls (n=4 in every arrangement, n=5); plus the table itself across its first growth step (7 rows, 5-6 distinct abstract keys, hash = key, keys spread or all in one probe chain (stride 8/16); thorough: also an uninterpreted hash with start slots {0,1,8,15})"
 		},
 		Assume: assume, Outside: []string{"more than 2 key columns", "tables larger than 8 slots / growth steps (grouping more than 4 distinct keys)", "GroupStats values"},
 		MinReach: []string{"end"}, TVVectors: 2, Solver: "z3-new -in",
@@ -246,7 +246,7 @@ func init() {
 			if tier == "thorough" {
 				return "n=4 rows (int key) / n=3 (other key types) of P=n+1 physical rows in every arrangement, 1-2 key columns of all five types or all columns, both Null settings"
 			}
-			return "n=3 rows of P=4 physical rows (fixed non-identity arrangement), 1-2 key columns of all five types or all columns, both Null settings"
+			return "n=3 rows of P=4 physical rows (fixed non-identity arrangement), 1-2 key columns of all five types or all columns, both Null settings; a concrete enum key pattern with three nulls (n=4 in every arrangement, n=5); the source frame and the first result re-observed after a second Distinct; the hash table across its first growth step incl. keys in one probe chain"
 		},
 		Assume: assume[:2], Outside: []string{"more than 2 key columns", "tables larger than 8 slots / growth steps"},
 		MinReach: []string{"end"}, TVVectors: 2, Solver: "z3-new -in",
@@ -313,9 +313,9 @@ func init() {
 		},
 		Bounds: func(tier string) string {
 			if tier == "thorough" {
-				return "frames of n=3 logical rows over P=4 physical rows in every arrangement, six columns (int,int,float,bool,string,enum), instruction lists of length 1-2 over constants, column copies, zero-argument functions, all 20 single-argument signatures, two-argument functions of every type, ToUpper, destinations new/overlapping sources; FilteredApply with a symbolic int clause; WithRowNums"
+				return "frames of n=3 logical rows over P=4 physical rows in every arrangement, six columns (int,int,float,bool,string,enum), instruction lists of length 1-2 over constants, column copies, zero-argument functions, all 20 single-argument signatures, two-argument functions of every type, ToUpper, destinations new/overlapping sources; FilteredApply with a symbolic int clause (incl. ToUpper on string and enum columns); user functions handing back their own argument (4 concrete rows, string/enum, 1-2 arguments); sibling frames derived from one result; WithRowNums"
 			}
-			return "frames of n=2 logical rows over P=3 physical rows in every arrangement, six columns (int,int,float,bool,string,enum), instruction lists of length 1-2 over constants, column copies, zero-argument functions, all 20 single-argument signatures, two-argument functions of every type, ToUpper, destinations new/overlapping sources; FilteredApply with a symbolic int clause; WithRowNums"
+			return "frames of n=2 logical rows over P=3 physical rows in every arrangement, six columns (int,int,float,bool,string,enum), instruction lists of length 1-2 over constants, column copies, zero-argument functions, all 20 single-argument signatures, two-argument functions of every type, ToUpper, destinations new/overlapping sources; FilteredApply with a symbolic int clause (incl. ToUpper on string and enum columns); user functions handing back their own argument (4 concrete rows, string/enum, 1-2 arguments); sibling frames derived from one result; WithRowNums"
 		},
 		Assume:   []string{"user functions are uninterpreted functions of their arguments (functions returning *string: uninterpreted nullness and one uninterpreted byte)", "ToUpper is checked for structure on cells over {a,B,z}; the rune mapping is C18's"},
 		Outside:  []string{"instruction lists longer than 2", "n > 3"},
@@ -460,9 +460,9 @@ func init() {
 		},
 		Bounds: func(tier string) string {
 			if tier == "thorough" {
-				return "frames of n=3 logical rows over P=4 physical rows in every arrangement with all five column types (strings 1 byte, one nullable cell per string/enum column); pairs of frames with independent symbolic indexes"
+				return "frames of n=3 logical rows over P=4 physical rows in every arrangement with all five column types (strings 1 byte, one nullable cell per string/enum column); pairs of frames with independent symbolic indexes; full-length indexes that keep the end rows in place (n=4); sibling frames; Equals of derived enums with different dictionaries over {null,x,b,c}^3"
 			}
-			return "frames of n=2 logical rows over P=3 physical rows in every arrangement with all five column types (strings 1 byte, one nullable cell per string/enum column); pairs of frames with independent symbolic indexes"
+			return "frames of n=2 logical rows over P=3 physical rows in every arrangement with all five column types (strings 1 byte, one nullable cell per string/enum column); pairs of frames with independent symbolic indexes; full-length indexes that keep the end rows in place (n=4); sibling frames; Equals of derived enums with different dictionaries over {null,x,b,c}^3"
 		},
 		Assume: []string{
 			"decimal text of symbolic numbers is an injective fixed-width model (DESIGN 3.4); the real digit code is C16's",
@@ -494,7 +494,7 @@ func init() {
 			return jobs
 		},
 		Bounds: func(tier string) string {
-			return "78 misuse cases (one invalid argument per call: unknown columns, comparators, function/argument types outside the documented unions, illegal names, bad slice bounds over all ints, empty And/Or, malformed expressions, mismatched column types, invalid aggregations) on a derived frame with one column per type and symbolic cells; sticky-error chains of every chainable operation after 6 (thorough: every) first error"
+			return "83 misuse cases (incl. misuse on frames without rows and the same malformed pattern used repeatedly) (one invalid argument per call: unknown columns, comparators, function/argument types outside the documented unions, illegal names, bad slice bounds over all ints, empty And/Or, malformed expressions, mismatched column types, invalid aggregations) on a derived frame with one column per type and symbolic cells; sticky-error chains of every chainable operation after 6 (thorough: every) first error"
 		},
 		Assume:   []string{"documented panics (Must*View, ItemAt out of range, DivI by zero) are excluded", "a panic on any feasible path is a violation (engine-level obligation)"},
 		Outside:  []string{"two simultaneous misuses in one call", "ReadCSV/ReadJSON/ReadSQL argument misuse (C12, C15)"},
@@ -611,9 +611,9 @@ func init() {
 		},
 		Bounds: func(tier string) string {
 			if tier == "thorough" {
-				return "scanner: every well-formed document of length <=6 over the class alphabet {delimiter, quote, LF, CR, a, b}, initial buffer capacity 1 and 1024 (2 and 3 up to length 5), every sequence of read sizes and both EOF styles; length 7 with whole-buffer reads; ReadCSV layer as in the quick tier"
+				return "scanner: every well-formed document of length <=6 over the class alphabet {delimiter, quote, LF, CR, a, b}, initial buffer capacity 1 and 1024 (2 and 3 up to length 5), every sequence of read sizes and both EOF styles; length 7 with whole-buffer reads; ReadCSV layer as in the quick tier; delimiter 0xA7 with cells over Latin-1/partial UTF-8 bytes (length <=4)"
 			}
-			return "scanner: every well-formed document of length <=4 over the class alphabet {delimiter, quote, LF, CR, a, b}, initial buffer capacity 1 and 1024 (2 at length 3), every sequence of read sizes and both EOF styles; length 5 with whole-buffer reads; ReadCSV layer: type inference on 2 columns x 1-2 rows with cells over {empty,1,7,t,x,.} and both EmptyNull settings, and 10 option layouts (Headers, IgnoreEmptyLines, single-column empty lines, RenameDuplicateColumns, MissingColumnNameAlias, Delimiter, Types/EnumValues, typed failure, column count mismatch, RowCountHint across the 1000-row resize) with symbolic cells"
+			return "scanner: every well-formed document of length <=4 over the class alphabet {delimiter, quote, LF, CR, a, b}, initial buffer capacity 1 and 1024 (2 at length 3), every sequence of read sizes and both EOF styles; length 5 with whole-buffer reads; ReadCSV layer: type inference on 2 columns x 1-2 rows with cells over {empty,1,7,t,x,.} and both EmptyNull settings, and 10 option layouts (Headers, IgnoreEmptyLines, single-column empty lines, RenameDuplicateColumns, MissingColumnNameAlias, Delimiter, Types/EnumValues, typed failure, column count mismatch, RowCountHint across the 1000-row resize) with symbolic cells; delimiter 0xA7 with cells over Latin-1/partial UTF-8 bytes (length <=4); inference cells include -0, +1, 1.5; RenameDuplicateColumns against later names; one EnumValues map used for several reads"
 		},
 		Assume:   []string{"well-formed = accepted by the harness's RFC 4180 recogniser; CR only as part of a CRLF record end (CR inside quoted fields excluded)", "(0,nil) reads excluded (discouraged by io.Reader)", "the reader is constructed directly (as NewReader does) so that tiny buffer capacities exercise reallocation and compaction"},
 		Outside:  []string{"documents longer than the bound; fields crossing the real 1 KiB buffer (exercised instead through capacity 1..3)", "ReadCSV options and inference beyond the layouts listed in bounds"},
@@ -683,9 +683,9 @@ func init() {
 		},
 		Bounds: func(tier string) string {
 			if tier == "thorough" {
-				return "cells and patterns of <=2 rune positions (3 in two extra jobs), each position a symbolic ASCII byte (all 128 values) or one of U+0080, µ, ÿ, ı, ſ, ɐ, ⱥ, U+10428, U+FFFD; all four %-placements, patterns % and %%, like and ilike; one matcher used for two consecutive cells (buffer reuse); 14 regex patterns incl. invalid ones against symbolic 2-byte ASCII cells; string column vs enum column on 9 patterns"
+				return "cells and patterns of <=2 rune positions (3 in two extra jobs), each position a symbolic ASCII byte (all 128 values) or one of U+0080, µ, ÿ, ı, ſ, ɐ, ⱥ, U+10428, U+FFFD; all four %-placements, patterns % and %%, like and ilike; one matcher used for two consecutive cells (buffer reuse); 14 regex patterns incl. invalid ones against symbolic 2-byte ASCII cells; string column vs enum column on 9 patterns; string vs enum columns incl. an enum whose dictionary holds a string twice and the pattern filter as later member of an Or"
 			}
-			return "cells and patterns of <=2 rune positions, each position a symbolic ASCII byte (all 128 values) or one of U+0080, µ, ÿ, ı (only U+0080, µ when pattern+cell have more than 2 positions); all four %-placements, patterns % and %%, like and ilike; one matcher used for two consecutive cells (buffer reuse); 14 regex patterns incl. invalid ones against symbolic 2-byte ASCII cells; string column vs enum column on 9 patterns"
+			return "cells and patterns of <=2 rune positions, each position a symbolic ASCII byte (all 128 values) or one of U+0080, µ, ÿ, ı (only U+0080, µ when pattern+cell have more than 2 positions); all four %-placements, patterns % and %%, like and ilike; one matcher used for two consecutive cells (buffer reuse); 14 regex patterns incl. invalid ones against symbolic 2-byte ASCII cells; string column vs enum column on 9 patterns; string vs enum columns incl. an enum whose dictionary holds a string twice and the pattern filter as later member of an Or"
 		},
 		Assume:   []string{"Go's regexp is the oracle for regex patterns: (*Regexp).MatchString is an uninterpreted predicate of (pattern, subject); the check decides that the pattern handed to regexp.Compile is the documented transformation and that compile errors propagate", "unicode.ToUpper for non-ASCII code points is the host's (real tables, concrete code points); for ASCII it is arithmetic on a..z", "plain patterns: ASCII bytes are assumed not to be regex metacharacters or % (those are covered by the regex jobs and the %-flags)"},
 		Outside:  []string{"code points outside the alphabet", "strings longer than 3 rune positions (the 10-byte initial buffer is crossed by 3 runes of 4 bytes only in the thorough job)"},
@@ -741,7 +741,7 @@ func init() {
 			return jobs
 		},
 		Bounds: func(tier string) string {
-			return "declared lists of size 3,65,129,255 (thorough: 1,2,3,64,65,128,129,192,193,254,255) and 256 (must fail), declared order opposite to the alphabet; two data cells with symbolic value index (all declared values) plus a null; constants at positions 0, K-1 and across the 64-bit word boundaries of the bitset; all six comparators, in-lists crossing word boundaries, Sort; undeclared 2-byte values symbolic; derived enums with 3/253/254/255 distinct values plus two symbolic (duplicate or fresh) cells; bitset set/isSet over all values and arbitrary prior contents"
+			return "declared lists of size 3,65,129,255 (thorough: 1,2,3,64,65,128,129,192,193,254,255) and 256 (must fail), declared order opposite to the alphabet; two data cells with symbolic value index (all declared values) plus a null; constants at positions 0, K-1 and across the 64-bit word boundaries of the bitset; all six comparators, in-lists crossing word boundaries, Sort; undeclared 2-byte values symbolic; derived enums with 3/253/254/255 distinct values plus two symbolic (duplicate or fresh) cells; bitset set/isSet over all values and arbitrary prior contents; ReadCSV paths: derived enums of 3/254/255 values + one symbolic cell, one declaration used for three reads, leading empty cells; undeclared constants inside And/Or"
 		},
 		Assume:   []string{"enum value names are 2-byte strings computed from the value index", "ReadCSV/ReadJSON construction paths: the enum factory code is shared (AppendByteString/AppendString); those entry points are exercised in C13/C14 harnesses on small value sets"},
 		Outside:  []string{"value names of other lengths; more than two symbolic data cells"},
@@ -786,9 +786,9 @@ func init() {
 		},
 		Bounds: func(tier string) string {
 			if tier == "thorough" {
-				return "frames of 1-2 columns x 1-2 rows (derived: reversed rows of a larger physical frame), string cells of 0..3 bytes over {comma, quote, LF, space, a, backslash, dot, 0x80, 0xC3} and null, enum/int/float/bool cells symbolic; Header on/off, Columns(order), EmptyNull on/off; real encoding/csv.Writer, bufio, bytes.Reader, fastcsv, ReadCSV, New"
+				return "frames of 1-2 columns x 1-2 rows (derived: reversed rows of a larger physical frame), string cells of 0..3 bytes over {comma, quote, LF, space, a, backslash, dot, 0x80, 0xC3} and null, enum/int/float/bool cells symbolic; Header on/off, Columns(order), EmptyNull on/off; real encoding/csv.Writer, bufio, bytes.Reader, fastcsv, ReadCSV, New; enum column of 3 rows with null cells in any position (EmptyNull)"
 			}
-			return "frames of 1-2 columns x 1-2 rows (derived: reversed rows of a larger physical frame), string cells of 0..2 bytes over {comma, quote, LF, space, a, backslash, dot, 0x80, 0xC3} and null, enum/int/float/bool cells symbolic; Header on/off, Columns(order), EmptyNull on/off; real encoding/csv.Writer, bufio, bytes.Reader, fastcsv, ReadCSV, New"
+			return "frames of 1-2 columns x 1-2 rows (derived: reversed rows of a larger physical frame), string cells of 0..2 bytes over {comma, quote, LF, space, a, backslash, dot, 0x80, 0xC3} and null, enum/int/float/bool cells symbolic; Header on/off, Columns(order), EmptyNull on/off; real encoding/csv.Writer, bufio, bytes.Reader, fastcsv, ReadCSV, New; enum column of 3 rows with null cells in any position (EmptyNull)"
 		},
 		Assume:   []string{"decimal text of symbolic numbers is the injective fixed-width model (DESIGN 3.4): 'bit-identical floats' therefore rests on strconv being its own inverse (trusted)", "the reader delivers whole buffers (fragmentation is C12's)", "CR inside cells excluded by the statement"},
 		Outside:  []string{"strings longer than 3 bytes, more than 2x2 cells"},
@@ -837,7 +837,7 @@ func init() {
 			}
 			return "ToJSON on derived frames: column names of 1-2 symbolic bytes over {a, quote, backslash, 0x01, 0x7f, 0xC3, 0x80}; string cells of 0..2 bytes over {a, quote, backslash, 0x00, 0x1f, LF, 0x7f, 0x80, 0xC2, 0xE2, 0xA8, 0xA9} and null; mixed frames (int,bool,string,enum,float with NaN) of 2 rows; 0 rows; a 700-row frame (text > 8 KiB); ReadJSON(ToJSON(f)) for frames of 1-2 rows with 1-4 columns over int, bool, enum, NaN-free finite float and nullable string (cells 0..1 byte)"
 		},
-		Assume:   []string{"the output is read by a reference reader for the JSON subset written in the harness from RFC 8259", "number tokens of symbolic numbers are the engine's injective text model (DESIGN 3.4); the digit code is C16's", "ReadJSON: encoding/json's reflection-driven Decoder.Decode is replaced by the same reference reader, producing the []map[string]interface{} the documentation of encoding/json describes (numbers float64, null nil, last duplicate key wins); everything after decoding (type detection from the first record, fill functions, New) is the real code; column order and enum values are declared to ReadJSON"},
+		Assume:   []string{"the output is read by a reference reader for the JSON subset written in the harness from RFC 8259", "number tokens of symbolic numbers are the engine's injective text model (DESIGN 3.4); the digit code is C16's", "ReadJSON: encoding/json's reflection-driven Decoder (NewDecoder, Token for delimiters, More, Decode into []map[string]interface{} or map[string]interface{}) is replaced by a reference stream reader in the harness producing what the documentation of encoding/json describes (numbers float64, null nil, last duplicate key wins; More is false on read errors, Token/Decode report them); everything after decoding (type detection from the first record, fill functions, New) is the real code; column order and enum values are declared to ReadJSON"},
 		Outside:  []string{"encoding/json's decoder itself", "zero-row frames for ReadJSON (the text [] carries no columns)", "strings longer than 3 bytes", "U+2028/U+2029 (3-byte sequences over the alphabet are reachable only in the thorough tier)"},
 		MinReach: []string{"end"}, TVVectors: 2,
 	})
@@ -946,7 +946,7 @@ func init() {
 			return jobs
 		},
 		Bounds: func(tier string) string {
-			return "frames of 2 (thorough 3-4) rows derived from a larger physical frame, 1-3 (thorough 1-5) columns over the five types with symbolic cells; dialects postgres/sqlite/mysql/plain/incrementing, a table name containing the escape character; result sets of the driver types int64, float64, bool, string, []byte, NULL (NULLs in text/float columns, including leading NULLs); write-then-read round trips"
+			return "frames of 2 (thorough 3-4) rows derived from a larger physical frame, 1-3 (thorough 1-5) columns over the five types with symbolic cells; dialects postgres/sqlite/mysql/plain/incrementing, a table name containing the escape character; result sets of the driver types int64, float64, bool, string, []byte, NULL (NULLs in text/float columns, including leading NULLs); write-then-read round trips; user-chosen escape characters outside ASCII"
 		},
 		Assume:   []string{"database/sql is a contract model in the engine (Tx.Prepare/Exec, Stmt.Query/Close, Rows.Next/Columns/Scan/Err): Scan passes each driver value to the destination's Scan method; Exec arguments are normalised like database/sql's default converter; natively a scripted in-memory driver behind the real database/sql is used for replay", "Precision is exercised on concrete values only; the coercion options are not exercised"},
 		Outside:  []string{"real drivers' type mapping", "Coerce and Precision options", "identifier escaping rules beyond wrapping in the escape character (the code does not double embedded escape characters; the statement does not require it)"},
